@@ -249,11 +249,13 @@ class System:
             key = key.strip()
             value = value.strip()
 
+            if not self._config_object.has_section(section):
+                self._config_object.add_section(section)
+
             if not newobj:
                 self._config_object.set(section, key, value)
                 logger.debug("Existing config option set: %s.%s=%s", section, key, value)
             else:
-                self._config_object.add_section(section)
                 self._config_object.set(section, key, value)
                 logger.debug("New config option added: %s.%s=%s", section, key, value)
 
